@@ -23,6 +23,7 @@ import Dawgs.Proofs.C01Frag
 import Dawgs.Proofs.C01S2Sound
 import Dawgs.Proofs.C01ChainSound
 import Dawgs.Proofs.C01Count
+import Dawgs.Proofs.C01CountHop
 namespace Dawgs.C01.Props
 open Dawgs Dawgs.Sql Dawgs.C01.Proofs
 
@@ -123,9 +124,9 @@ theorem c01_partial : C01_for tr := by
 def AgreeBag (km : KindMap) (g : Graph) (t : Table) (r : List String × List (List Cy.CVal)) : Prop := (sqlRows t).Perm (cyRows g km r)
 
 /-- `tr2F` answers only inside S1 ∪ S2: with the S1 statement, or with the hop statement in the join order `flipOf` picked -/
-theorem tr2_some (flipOf : S2.Query → Bool) (km : KindMap) (q : Cy.Query) (st : Stmt) (ps : List (String × Val))
-    (h : tr2F flipOf km q = some (st, ps)) :
-    tr km q = some (st, ps) ∨ (∃ s : S2.Query, ofCy2 q = some s ∧ s.toCy = q ∧ s.trWith km (flipOf s) = some st ∧ ps = []) := by
+theorem tr2_some (flipOf : S2.Query → Bool) (prune : Bool) (km : KindMap) (q : Cy.Query) (st : Stmt) (ps : List (String × Val))
+    (h : tr2F flipOf prune km q = some (st, ps)) :
+    tr km q = some (st, ps) ∨ (∃ s : S2.Query, ofCy2 q = some s ∧ s.toCy = q ∧ s.trWith km (flipOf s) prune = some st ∧ ps = []) := by
   unfold tr2F at h
   cases h1 : tr km q with
   | some r => rw [h1] at h; cases h; exact Or.inl rfl
@@ -143,14 +144,14 @@ theorem tr2_some (flipOf : S2.Query → Bool) (km : KindMap) (q : Cy.Query) (st 
 /-- `tr_sound_S2`: for every graph satisfying `GraphOK2` (GraphOK + unique relationship ids + known relationship kinds + no relationship
 property stored as JSON null), every join-order choice and every query on which the model translator answers (stage S1 or S2): whenever
 the emitted statement evaluates, the reference semantics yields a result and the SQL rows are a permutation of its rows (equal lists for S1) -/
-theorem tr_sound_S2 (flipOf : S2.Query → Bool) (km : KindMap) (g : Graph) (q : Cy.Query) (st : Stmt) (ps : List (String × Val))
-    (hok : GraphOK2 km g) (h : tr2F flipOf km q = some (st, ps)) (t : Table) (ht : Sql.eval (encode km g) st ps = .ok t) :
+theorem tr_sound_S2 (flipOf : S2.Query → Bool) (prune : Bool) (km : KindMap) (g : Graph) (q : Cy.Query) (st : Stmt) (ps : List (String × Val))
+    (hok : GraphOK2 km g) (h : tr2F flipOf prune km q = some (st, ps)) (t : Table) (ht : Sql.eval (encode km g) st ps = .ok t) :
     ∃ r, Cy.eval .none g q = .ok r ∧ AgreeBag km g t r := by
-  rcases tr2_some flipOf km q st ps h with h1 | ⟨s, _, hq, hst, hps⟩
+  rcases tr2_some flipOf prune km q st ps h with h1 | ⟨s, _, hq, hst, hps⟩
   · obtain ⟨r, hr, hag⟩ := tr_sound_S1 km g q st ps hok.toGraphOK h1 t ht
     exact ⟨r, hr, by unfold AgreeBag; rw [show sqlRows t = cyRows g km r from hag]⟩
   · subst hps hq
-    obtain ⟨r, names, rows, hr, hsql, hperm⟩ := s2_sound km g hok s (flipOf s) st hst
+    obtain ⟨r, names, rows, hr, hsql, hperm⟩ := s2_sound km g hok s (flipOf s) prune st hst
     rcases hsql with hsql | ⟨w, hsql⟩
     · rw [hsql] at ht; cases ht
       exact ⟨r, hr, hperm⟩
@@ -158,32 +159,32 @@ theorem tr_sound_S2 (flipOf : S2.Query → Bool) (km : KindMap) (g : Graph) (q :
 
 /-- `tr_sound_S2b` (the same, said for the hop stage alone and for BOTH join orders at once): the two statements the translator can emit for
 a hop query — a-node joined first / b-node joined first — are each a permutation of the Cypher result whenever they evaluate -/
-theorem tr_sound_S2b (km : KindMap) (g : Graph) (hok : GraphOK2 km g) (s : S2.Query) (flip : Bool) (st : Stmt)
-    (h : s.trWith km flip = some st) (t : Table) (ht : Sql.eval (encode km g) st [] = .ok t) :
+theorem tr_sound_S2b (km : KindMap) (g : Graph) (hok : GraphOK2 km g) (s : S2.Query) (flip prune : Bool) (st : Stmt)
+    (h : s.trWith km flip prune = some st) (t : Table) (ht : Sql.eval (encode km g) st [] = .ok t) :
     ∃ r, Cy.eval .none g s.toCy = .ok r ∧ AgreeBag km g t r := by
-  obtain ⟨r, names, rows, hr, hsql, hperm⟩ := s2_sound km g hok s flip st h
+  obtain ⟨r, names, rows, hr, hsql, hperm⟩ := s2_sound km g hok s flip prune st h
   rcases hsql with hsql | ⟨w, hsql⟩
   · rw [hsql] at ht; cases ht; exact ⟨r, hr, hperm⟩
   · rw [hsql] at ht; cases ht
 
 /-- the reference semantics is defined on every query of the stage (no hypothesis on the SQL side) -/
-theorem tr2_cypher_defined (flipOf : S2.Query → Bool) (km : KindMap) (g : Graph) (q : Cy.Query) (st : Stmt) (ps : List (String × Val))
-    (hok : GraphOK2 km g) (h : tr2F flipOf km q = some (st, ps)) : ∃ r, Cy.eval .none g q = .ok r := by
-  rcases tr2_some flipOf km q st ps h with h1 | ⟨s, _, hq, hst, hps⟩
+theorem tr2_cypher_defined (flipOf : S2.Query → Bool) (prune : Bool) (km : KindMap) (g : Graph) (q : Cy.Query) (st : Stmt) (ps : List (String × Val))
+    (hok : GraphOK2 km g) (h : tr2F flipOf prune km q = some (st, ps)) : ∃ r, Cy.eval .none g q = .ok r := by
+  rcases tr2_some flipOf prune km q st ps h with h1 | ⟨s, _, hq, hst, hps⟩
   · exact tr_cypher_defined km g q st ps hok.toGraphOK h1
   · subst hq
-    obtain ⟨r, _, _, hr, _, _⟩ := s2_sound km g hok s (flipOf s) st hst
+    obtain ⟨r, _, _, hr, _, _⟩ := s2_sound km g hok s (flipOf s) prune st hst
     exact ⟨r, hr⟩
 
 /-- the emitted statement never ends in an SQL run-time / type / name error (only the model's own `unmodelled` for `->>` of array/object
 properties under a string comparison) -/
-theorem tr2_no_runtime_error (flipOf : S2.Query → Bool) (km : KindMap) (g : Graph) (q : Cy.Query) (st : Stmt) (ps : List (String × Val))
-    (hok : GraphOK2 km g) (h : tr2F flipOf km q = some (st, ps)) (e : EErr) (he : Sql.eval (encode km g) st ps = .error e) :
+theorem tr2_no_runtime_error (flipOf : S2.Query → Bool) (prune : Bool) (km : KindMap) (g : Graph) (q : Cy.Query) (st : Stmt) (ps : List (String × Val))
+    (hok : GraphOK2 km g) (h : tr2F flipOf prune km q = some (st, ps)) (e : EErr) (he : Sql.eval (encode km g) st ps = .error e) :
     ∃ w, e = .unmodelled w := by
-  rcases tr2_some flipOf km q st ps h with h1 | ⟨s, _, hq, hst, hps⟩
+  rcases tr2_some flipOf prune km q st ps h with h1 | ⟨s, _, hq, hst, hps⟩
   · exact tr_no_runtime_error km g q st ps hok.toGraphOK h1 e he
   · subst hps hq
-    obtain ⟨r, names, rows, _, hsql, _⟩ := s2_sound km g hok s (flipOf s) st hst
+    obtain ⟨r, names, rows, _, hsql, _⟩ := s2_sound km g hok s (flipOf s) prune st hst
     rcases hsql with hsql | ⟨w, hsql⟩
     · rw [hsql] at he; cases he
     · rw [hsql] at he; cases he; exact ⟨w, rfl⟩
@@ -195,21 +196,21 @@ def C01_bag_for (T : KindMap → Cy.Query → Option (Stmt × List (String × Va
     (∀ m, Sql.eval (encode km g) st ps ≠ .error (.runtime m))
 
 /-- … holds for the model translator under EVERY join-order choice -/
-theorem c01_partial_S2 (flipOf : S2.Query → Bool) : C01_bag_for (tr2F flipOf) := by
+theorem c01_partial_S2 (flipOf : S2.Query → Bool) (prune : Bool) : C01_bag_for (tr2F flipOf prune) := by
   intro km g q st ps hok h
-  refine ⟨fun t ht => tr_sound_S2 flipOf km g q st ps hok h t ht, ?_⟩
+  refine ⟨fun t ht => tr_sound_S2 flipOf prune km g q st ps hok h t ht, ?_⟩
   intro m hm
-  obtain ⟨w, hw⟩ := tr2_no_runtime_error flipOf km g q st ps hok h _ hm
+  obtain ⟨w, hw⟩ := tr2_no_runtime_error flipOf prune km g q st ps hok h _ hm
   cases hw
 
 /-! ### stage S2c: chains of two or three directed fixed hops — `tr3F flipOf flipCh` = S1 ∪ S2b ∪ S2c -/
 
 /-- `tr3F` answers only inside S1 ∪ S2b ∪ S2c -/
-theorem tr3_some (flipOf : S2.Query → Bool) (flipCh : Ch.Query → Bool) (km : KindMap) (q : Cy.Query) (st : Stmt) (ps : List (String × Val))
-    (h : tr3F flipOf flipCh km q = some (st, ps)) :
-    tr2F flipOf km q = some (st, ps) ∨ (∃ s : Ch.Query, ofCyChain q = some s ∧ s.toCy = q ∧ s.trWith km (flipCh s) = some st ∧ ps = []) := by
+theorem tr3_some (flipOf : S2.Query → Bool) (flipCh : Ch.Query → Bool) (prune : Bool) (km : KindMap) (q : Cy.Query) (st : Stmt) (ps : List (String × Val))
+    (h : tr3F flipOf flipCh prune km q = some (st, ps)) :
+    tr2F flipOf prune km q = some (st, ps) ∨ (∃ s : Ch.Query, ofCyChain q = some s ∧ s.toCy = q ∧ s.trWith km (flipCh s) = some st ∧ ps = []) := by
   unfold tr3F at h
-  cases h1 : tr2F flipOf km q with
+  cases h1 : tr2F flipOf prune km q with
   | some r => rw [h1] at h; cases h; exact Or.inl rfl
   | none =>
     rw [h1] at h
@@ -235,10 +236,10 @@ theorem tr_sound_S2c (km : KindMap) (g : Graph) (hok : GraphOK2 km g) (s : Ch.Qu
   · rw [hsql] at ht; cases ht
 
 /-- THE PROVED PART over all three stages, for every join-order choice -/
-theorem c01_partial_S3 (flipOf : S2.Query → Bool) (flipCh : Ch.Query → Bool) : C01_bag_for (tr3F flipOf flipCh) := by
+theorem c01_partial_S3 (flipOf : S2.Query → Bool) (flipCh : Ch.Query → Bool) (prune : Bool) : C01_bag_for (tr3F flipOf flipCh prune) := by
   intro km g q st ps hok h
-  rcases tr3_some flipOf flipCh km q st ps h with h2 | ⟨s, _, hq, hst, hps⟩
-  · exact c01_partial_S2 flipOf km g q st ps hok h2
+  rcases tr3_some flipOf flipCh prune km q st ps h with h2 | ⟨s, _, hq, hst, hps⟩
+  · exact c01_partial_S2 flipOf prune km g q st ps hok h2
   · subst hps hq
     obtain ⟨r, names, rows, hr, hsql, hperm⟩ := chain_sound km g hok s (flipCh s) st hst
     refine ⟨fun t ht => ?_, fun m hm => ?_⟩
@@ -254,11 +255,11 @@ theorem ofCyChain_sound (q : Cy.Query) (s : Ch.Query) (h : ofCyChain q = some s)
 /-! ### stage S1c: the count aggregate over one node pattern — `tr4F flipOf flipCh fast` = S1 ∪ S2b ∪ S2c ∪ S1c -/
 
 /-- `tr4F` answers only inside S1 ∪ S2b ∪ S2c ∪ S1c -/
-theorem tr4_some (flipOf : S2.Query → Bool) (flipCh : Ch.Query → Bool) (fast : Bool) (km : KindMap) (q : Cy.Query) (st : Stmt) (ps : List (String × Val))
-    (h : tr4F flipOf flipCh fast km q = some (st, ps)) :
-    tr3F flipOf flipCh km q = some (st, ps) ∨ (∃ s : S1c.Query, ofCyCount1 q = some s ∧ s.toCy = q ∧ s.trWith km fast = some st ∧ ps = []) := by
+theorem tr4_some (flipOf : S2.Query → Bool) (flipCh : Ch.Query → Bool) (fast prune : Bool) (km : KindMap) (q : Cy.Query) (st : Stmt) (ps : List (String × Val))
+    (h : tr4F flipOf flipCh fast prune km q = some (st, ps)) :
+    tr3F flipOf flipCh prune km q = some (st, ps) ∨ (∃ s : S1c.Query, ofCyCount1 q = some s ∧ s.toCy = q ∧ s.trWith km fast = some st ∧ ps = []) := by
   unfold tr4F at h
-  cases h1 : tr3F flipOf flipCh km q with
+  cases h1 : tr3F flipOf flipCh prune km q with
   | some r => rw [h1] at h; cases h; exact Or.inl rfl
   | none =>
     rw [h1] at h
@@ -283,11 +284,11 @@ theorem tr_sound_S1c (km : KindMap) (g : Graph) (hok : GraphOK km g) (s : S1c.Qu
   · rw [hsql] at ht; cases ht; exact ⟨r, hr, hrows⟩
   · rw [hsql] at ht; cases ht
 
-/-- THE PROVED PART over all four stages, for every join-order choice and with the fast path on or off -/
-theorem c01_partial_S4 (flipOf : S2.Query → Bool) (flipCh : Ch.Query → Bool) (fast : Bool) : C01_bag_for (tr4F flipOf flipCh fast) := by
+/-- THE PROVED PART over all four stages, for every join-order choice and with the fast path / projection pruning on or off -/
+theorem c01_partial_S4 (flipOf : S2.Query → Bool) (flipCh : Ch.Query → Bool) (fast prune : Bool) : C01_bag_for (tr4F flipOf flipCh fast prune) := by
   intro km g q st ps hok h
-  rcases tr4_some flipOf flipCh fast km q st ps h with h3 | ⟨s, _, hq, hst, hps⟩
-  · exact c01_partial_S3 flipOf flipCh km g q st ps hok h3
+  rcases tr4_some flipOf flipCh fast prune km q st ps h with h3 | ⟨s, _, hq, hst, hps⟩
+  · exact c01_partial_S3 flipOf flipCh prune km g q st ps hok h3
   · subst hps hq
     obtain ⟨r, names, rows, hr, hsql, hrows⟩ := count_sound km g hok.toGraphOK s fast st hst
     refine ⟨fun t ht => ?_, fun m hm => ?_⟩
@@ -300,6 +301,56 @@ theorem c01_partial_S4 (flipOf : S2.Query → Bool) (flipCh : Ch.Query → Bool)
       · rw [hsql] at hm; cases hm
 
 theorem ofCyCount1_sound (q : Cy.Query) (s : S1c.Query) (h : ofCyCount1 q = some s) : s.toCy = q := Proofs.ofCyCount1_sound q s h
+
+/-! ### stage S2n: the count aggregate over one directed hop — `tr5F` = all proved stages -/
+
+theorem tr5_some (flipOf : S2.Query → Bool) (flipCh : Ch.Query → Bool) (flipN : S2n.Query → Bool) (fast prune : Bool) (km : KindMap) (q : Cy.Query)
+    (st : Stmt) (ps : List (String × Val)) (h : tr5F flipOf flipCh flipN fast prune km q = some (st, ps)) :
+    tr4F flipOf flipCh fast prune km q = some (st, ps) ∨
+    (∃ s : S2n.Query, ofCyCount2 q = some s ∧ s.toCy = q ∧ s.trWith km (flipN s) prune = some st ∧ ps = []) := by
+  unfold tr5F at h
+  cases h1 : tr4F flipOf flipCh fast prune km q with
+  | some r => rw [h1] at h; cases h; exact Or.inl rfl
+  | none =>
+    rw [h1] at h
+    cases ho : ofCyCount2 q with
+    | none => rw [ho] at h; cases h
+    | some s =>
+      rw [ho] at h
+      simp only [Option.map_eq_some_iff] at h
+      obtain ⟨st', hst, heq⟩ := h
+      cases heq
+      exact Or.inr ⟨s, rfl, ofCyCount2_sound q s ho, hst, rfl⟩
+
+/-- `tr_sound_S2n`: MATCH (a)-[r]->(b) [WHERE single-variable conjuncts] RETURN count(x) [AS c] — for every graph with `GraphOK2`, both join
+orders and the hop frame pruned (to x and the variables of the WHERE conjuncts) or complete: whenever the statement evaluates, the reference
+semantics yields the same single row, the number of matches -/
+theorem tr_sound_S2n (km : KindMap) (g : Graph) (hok : GraphOK2 km g) (s : S2n.Query) (flip prune : Bool) (st : Stmt)
+    (h : s.trWith km flip prune = some st) (t : Table) (ht : Sql.eval (encode km g) st [] = .ok t) :
+    ∃ r, Cy.eval .none g s.toCy = .ok r ∧ Agree km g t r := by
+  obtain ⟨r, names, rows, hr, hsql, hrows⟩ := count_hop_sound km g hok s flip prune st h
+  rcases hsql with hsql | ⟨w, hsql⟩
+  · rw [hsql] at ht; cases ht; exact ⟨r, hr, hrows⟩
+  · rw [hsql] at ht; cases ht
+
+/-- THE PROVED PART over all five stages, for every join-order choice and with the fast path / projection pruning on or off -/
+theorem c01_partial_S5 (flipOf : S2.Query → Bool) (flipCh : Ch.Query → Bool) (flipN : S2n.Query → Bool) (fast prune : Bool) :
+    C01_bag_for (tr5F flipOf flipCh flipN fast prune) := by
+  intro km g q st ps hok h
+  rcases tr5_some flipOf flipCh flipN fast prune km q st ps h with h4 | ⟨s, _, hq, hst, hps⟩
+  · exact c01_partial_S4 flipOf flipCh fast prune km g q st ps hok h4
+  · subst hps hq
+    obtain ⟨r, names, rows, hr, hsql, hrows⟩ := count_hop_sound km g hok s (flipN s) prune st hst
+    refine ⟨fun t ht => ?_, fun m hm => ?_⟩
+    · rcases hsql with hsql | ⟨w, hsql⟩
+      · rw [hsql] at ht; cases ht
+        exact ⟨r, hr, by unfold AgreeBag; rw [hrows]⟩
+      · rw [hsql] at ht; cases ht
+    · rcases hsql with hsql | ⟨w, hsql⟩
+      · rw [hsql] at hm; cases hm
+      · rw [hsql] at hm; cases hm
+
+theorem ofCyCount2_sound (q : Cy.Query) (s : S2n.Query) (h : ofCyCount2 q = some s) : s.toCy = q := Proofs.ofCyCount2_sound q s h
 
 theorem ofCy2_sound (q : Cy.Query) (s : S2.Query) (h : ofCy2 q = some s) : s.toCy = q := Proofs.ofCy2_sound q s h
 
